@@ -30,6 +30,9 @@ plan('C17',
          # sizes above 200000 bytes: to 1 MiB in the quick tier, sampled to 16 MiB in the thorough tier
          Job('c17_files', 'big', 'asan', quick=8, thorough=100, shards=(4, 6), params=dict(maxmb=1), tparams=dict(maxmb=16)),
          Job('c17_files', 'big', 'plain', quick=16, thorough=200, shards=(2, 6), params=dict(maxmb=1), tparams=dict(maxmb=16)),
+         # a write that fails at a chosen byte during copy/move (RLIMIT_FSIZE), and moves to another file system (/dev/shm)
+         Job('c17_files', 'fault', 'asan', quick=2000, thorough=40000, shards=(3, 12)),
+         Job('c17_files', 'fault', 'plain', quick=2000, thorough=40000, shards=(2, 8)),
          # one long-lived File / TextFile object: metadata queries, opens, writes, closes and reads interleaved
          Job('c17_files', 'sameobj', 'asan', quick=3000, thorough=80000, shards=(3, 12)),
          Job('c17_files', 'sameobj', 'plain', quick=3000, thorough=80000, shards=(2, 8)),
@@ -57,8 +60,11 @@ plan('C17',
          'the BOM clause is judged on text(); TextFile::text() folds CRLF to LF while decoding UTF-16, which is accepted and counted; UTF-16 '
          'texts without CRLF must match exactly; lines() of BOM files is only observed (asl does no BOM handling there)',
          'text content is NUL-free and does not begin with a byte-order mark unless the case is a BOM case',
-         'Directory::move is exercised inside one file system only (rename path); the EXDEV copy-and-delete fallback needs a second file '
-         'system outside the scratch directory and is not driven',
+         'modes copy/copy_mt move inside one file system (rename path). Mode fault moves from the scratch directory to /dev/shm when that is another '
+         'device (EXDEV copy-and-delete fallback; the counter fault.moves-across-file-systems says how often) and arms a write fault with '
+         'RLIMIT_FSIZE (EFBIG at a chosen byte, SIGXFSZ ignored) during copy/move. It judges only: a call that reports success left a complete '
+         'destination; a copy never changes its source; after a move the complete content exists in the source or the destination; without a fault '
+         'the call succeeds. What a failed call leaves at the destination is not judged. Other faults (EIO on read, ENOSPC at close) are not injected',
      ])
 
 
@@ -69,7 +75,7 @@ T('C17', 'reference-model monitor: byte-string model of a path under write/appen
   'path, histories through one long-lived File/TextFile object (metadata queries, opens, writes, closes and reads interleaved), BOM files of '
   'random scalar sequences, copies/moves (also from 2-6 threads at once on distinct files, additionally under TSan), and sizes sampled to 16 MiB '
   '(thorough); compares disk bytes and every reader with the model and reports the counts of boundaries, operations, line-end and BOM kinds '
-  'that were seen.',
+  'that were seen. Mode fault copies/moves with a write failing at a chosen byte (file-size limit) and across file systems.',
   'Trusts the harness model, the reference splitter/encoders (written from the property text), POSIX open/read/write, gcc ASan/UBSan. Sizes above '
   '200000 are sampled, not enumerated. The cross-device branch of Directory::move is not reached. Concurrent copies are scheduled by the OS: the '
   'run reports how many pairs of copy calls of different threads overlapped in time.')
